@@ -41,6 +41,8 @@ func NewTracer(path string) *Tracer {
 }
 
 func (t *Tracer) Emit(ev interface{}) {
+	wdMu.Lock()
+	defer wdMu.Unlock()
 	if err := t.enc.Encode(ev); err != nil {
 		fatal2("trace encode: %v", err)
 	}
@@ -426,7 +428,9 @@ func (l *Life) Build(batch []Doc, mode int) *hseg {
 				pan = fmt.Sprintf("%v", r)
 			}
 		}()
+		opBegin("New")
 		seg, size, err = l.plugin.New(MakeDocs(batch))
+		opEnd()
 	}()
 	if pan != "" || err != nil {
 		l.tr.Emit(EvBuildFail{Ev: "buildfail", Mode: mode, Batch: batch, Rejected: rejecting(batch), Panic: pan})
@@ -436,7 +440,9 @@ func (l *Life) Build(batch []Doc, mode int) *hseg {
 	h := &hseg{sid: l.nextSid, seg: seg, mem: true, uni: u, ndocs: len(batch)}
 	l.nextSid++
 	l.segs[h.sid] = h
+	opBegin("queries on built segment")
 	obs := Observe(seg, probesFor(u, l.r, len(batch), l.light))
+	opEnd()
 	l.tr.Emit(EvBuild{Ev: "build", Sid: h.sid, Mode: mode, Batch: batch, Size: ckInt(size), Obs: obs})
 	return h
 }
@@ -464,7 +470,9 @@ func (l *Life) Persist(h *hseg) int {
 	if !ok {
 		fatal2("segment %d is not unpersisted", h.sid)
 	}
+	opBegin("Persist")
 	err := us.Persist(path)
+	opEnd()
 	ev.Err = err != nil
 	data, rerr := os.ReadFile(path)
 	ev.Exists = rerr == nil
@@ -495,7 +503,9 @@ func (l *Life) Persist(h *hseg) int {
 
 // Open opens file k and logs the observation.
 func (l *Life) Open(k int) *hseg {
+	opBegin("Open")
 	seg, err := l.plugin.Open(l.path(k))
+	opEnd()
 	ev := EvOpen{Ev: "open", Sid: -1, File: k, Foot: Footer{CRC: Ints{}}}
 	if err != nil {
 		ev.Err = err.Error()
@@ -511,7 +521,9 @@ func (l *Life) Open(k int) *hseg {
 	crc := zs.CRC()
 	ev.Foot = Footer{N: ckInt(zs.NumDocs()), Mode: ckInt(uint64(zs.ChunkMode())), Ver: ckInt(uint64(zs.Version())),
 		CRC: Ints{int(crc >> 16), int(crc & 0xffff)}}
+	opBegin("queries on opened segment")
 	ev.Obs = Observe(seg, probesFor(h.uni, l.r, int(seg.Count()), l.light))
+	opEnd()
 	l.tr.Emit(ev)
 	return h
 }
@@ -547,7 +559,9 @@ func (l *Life) Merge(ins []*hseg, drops []Drop, mode int) (int, bool) {
 				ev.Panic = fmt.Sprintf("%v", r)
 			}
 		}()
+		opBegin("Merge")
 		maps, size, err = l.plugin.Merge(segs, bms, path, nil, nil)
+		opEnd()
 	}()
 	if err != nil {
 		ev.Err = err.Error()
